@@ -212,7 +212,21 @@ Definition dco_with (nl : netlist) : netlist :=
             (mems nl).
 End DCO.
 
-Definition direct_connect_outputs : netlist -> netlist := dco_with dco_skips.
+(* direct_connect_outputs: `while _direct_connect_outputs_pass(block): pass`
+   -- one pass is [dco_with]; a pass reports a change iff it found a candidate.
+   Every changing pass removes at least one net of a well-formed block, so
+   [length (nets nl)] passes are always enough fuel. *)
+Definition dco_changes (skips : op -> bool) (nl : netlist) : bool :=
+  existsb (fun n => match dco_candidate skips nl n with Some _ => true | None => false end) (nets nl).
+
+Fixpoint dco_iter (skips : op -> bool) (fuel : nat) (nl : netlist) : netlist :=
+  match fuel with
+  | O => nl
+  | S f => if dco_changes skips nl then dco_iter skips f (dco_with skips nl) else nl
+  end.
+
+Definition direct_connect_outputs (nl : netlist) : netlist :=
+  dco_iter dco_skips (length (nets nl)) nl.
 
 (* ---------- two_way_fanout ---------- *)
 Definition count_args (w : wid) (ns : list net) : nat :=
